@@ -454,7 +454,92 @@ def run_sampled(req):
     return {"obs": bad[:3], "stats": {"extractions": n}}
 
 
+def run_signal_after_exit(req):
+    """a signal handler (the library's typical caller: dump the stacks on SIGUSR1 / a watchdog alarm) that interrupts a
+    frame between two instructions of a with statement.  Whatever instant it hits: the entry for the manager is absent,
+    active, or exiting - and its obj is that manager or None, never some other object (the handler's own arguments)"""
+    import signal
+    n = req.get("n", 400)
+    seen = {"calls": 0, "exiting": 0, "active": 0, "none": 0}
+    bad = []
+    current = [None]
+
+    class CM:
+        def __enter__(self):
+            return self
+
+        def __exit__(self, *a):
+            return False
+
+    class AM:
+        async def __aenter__(self):
+            return self
+
+        async def __aexit__(self, *a):
+            return False
+
+    def handler(signum, frame):
+        seen["calls"] += 1
+        try:
+            with warnings.catch_warnings():
+                warnings.simplefilter("ignore")
+                st = stackscope.extract_since(None)
+        except BaseException as ex:
+            bad.append({"kind": "run.raised_in_signal_handler", "exc": repr(ex)})
+            arm()
+            return
+        for f in st.frames:
+            if f.pyframe.f_code.co_name in ("user", "auser"):
+                for c in f.contexts:
+                    if c.obj is None:
+                        seen["none"] += 1
+                    elif c.obj is not current[0]:
+                        bad.append({"kind": "run.unrelated_object_reported_as_manager", "obj": repr(c.obj)[:80],
+                                    "type": type(c.obj).__name__, "is_exiting": c.is_exiting, "frame": f.funcname})
+                    seen["exiting" if c.is_exiting else "active"] += 1
+        arm()
+
+    def arm():
+        if seen["calls"] < n and len(bad) < 3:
+            signal.setitimer(signal.ITIMER_REAL, 20e-6 + 7e-6 * (seen["calls"] % 37))
+
+    def user():
+        cm = CM()
+        current[0] = cm
+        with cm:
+            pass
+
+    async def auser():
+        am = AM()
+        current[0] = am
+        async with am:
+            pass
+
+    old = signal.signal(signal.SIGALRM, handler)
+    try:
+        arm()
+        i = 0
+        while seen["calls"] < n and len(bad) < 3 and i < 5000000:
+            i += 1
+            if i % 2:
+                user()
+            else:
+                co = auser()
+                try:
+                    co.send(None)
+                except StopIteration:
+                    pass
+    finally:
+        signal.setitimer(signal.ITIMER_REAL, 0)
+        signal.signal(signal.SIGALRM, old)
+    if seen["calls"] < n and not bad:
+        return {"harness_error": "only %d signal deliveries" % seen["calls"]}
+    return {"obs": bad[:3], "stats": seen}
+
+
 def handle(req):
+    if req["op"] == "modes.signal_after_exit":
+        return run_signal_after_exit(req)
     if req["op"] == "modes.sampled":
         return run_sampled(req)
     if req["op"] == "modes.bare_namespace":
